@@ -123,6 +123,30 @@ func govcRunWriterProgram(t *testing.T, dir string, comp int, first []int, seekT
 			return fmt.Sprintf("after skipping, record %d = (%q, %v), written %q", i, got, err, want)
 		}
 	}
+	if got, err := rd2.ReadNext(); !errors.Is(err, io.EOF) {
+		return fmt.Sprintf("after the mixed skip/read program the reader returned (%q, %v), want io.EOF", got, err)
+	}
+	// the complementary program: read the even records, skip the odd ones
+	rd3, _ := NewFileReaderWithPath(path)
+	if err := rd3.Open(); err != nil {
+		return "reader open failed: " + err.Error()
+	}
+	defer rd3.Close()
+	for i, want := range surv {
+		if i%2 == 1 {
+			if err := rd3.SkipNext(); err != nil {
+				return fmt.Sprintf("SkipNext of record %d failed: %v", i, err)
+			}
+			continue
+		}
+		got, err := rd3.ReadNext()
+		if err != nil || (got == nil) != (want == nil) || !bytes.Equal(got, want) {
+			return fmt.Sprintf("read/skip program: record %d = (%q, %v), written %q", i, got, err, want)
+		}
+	}
+	if got, err := rd3.ReadNext(); !errors.Is(err, io.EOF) {
+		return fmt.Sprintf("after the read/skip program the reader returned (%q, %v), want io.EOF", got, err)
+	}
 	return ""
 }
 
